@@ -220,3 +220,106 @@ Proof.
     unfold records_of in *. cbn [map]. rewrite IH, A, C. reflexivity. }
   rewrite (Q _ _ A1), (Q _ _ A2). exact E.
 Qed.
+
+(* ---- the same for the MSF body (names come from the header; see FormatsProofs2 for kalign's own header) ------------ *)
+Lemma msf_step_sep recs k h l : sep_line l ->
+  msf_step (Some (recs, k, h)) l = Some (recs, (if match l with [] => true | _ => false end then 0%nat else k), h).
+Proof. intros [->|(c & t & -> & Hc)]; [reflexivity|]. unfold msf_step. rewrite Hc. reflexivity. Qed.
+
+Lemma msf_seps : forall seps recs k h, Forall sep_line seps -> (In [] seps \/ k = 0%nat) ->
+  fold_left msf_step seps (Some (recs, k, h)) = Some (recs, 0%nat, h).
+Proof.
+  induction seps as [|l seps IH]; intros recs k h Hs Hin.
+  - destruct Hin as [Hin|Hk]; [destruct Hin|subst k; reflexivity].
+  - inversion Hs as [|? ? Hl Hs']; subst. cbn [fold_left]. rewrite (msf_step_sep recs k h l Hl).
+    apply IH; [exact Hs'|]. destruct l as [|c t]; [right; reflexivity|].
+    destruct Hin as [[E|Hin]|Hk]; [discriminate|left; exact Hin|right; exact Hk].
+Qed.
+
+Definition gpre_n (r : rrec) (x : item) : Prop := gpre r x /\ rr_name r = it_name x.
+
+Lemma msf_rows_g : forall items recs_pre recs_suf h,
+  Forall (fun x => gname_ok (it_name x)) items -> Forall2 gpre_n recs_suf items ->
+  exists recs' h',
+    fold_left msf_step (map it_line items) (Some (recs_pre ++ recs_suf, length recs_pre, h)) =
+      Some (recs_pre ++ recs', (length recs_pre + length items)%nat, h') /\
+    Forall2 gpost recs' items.
+Proof.
+  induction items as [|x items IH]; intros recs_pre recs_suf h Hok Hs.
+  - inversion Hs; subst. exists [], h. cbn [map fold_left length]. rewrite Nat.add_0_r. split; [reflexivity|constructor].
+  - inversion Hok as [|? ? (Hne & Hns & Hl) Hok']; subst. inversion Hs as [|r ? rs ? ((W & R & RS) & N) Hrs]; subst.
+    cbn [map fold_left]. change (it_line x) with (it_name x ++ 32 :: it_payload x).
+    rewrite msf_step_line by assumption.
+    set (r1 := feed_line _ _).
+    assert (Hr1 : gpost r1 x).
+    { destruct (feed_payload r (it_payload x) W) as (F1 & F2 & F3 & F4). fold r1 in F1, F2, F3, F4.
+      split; [exact F1|split; [rewrite F3; exact N|split]].
+      - rewrite F2, R. reflexivity.
+      - rewrite F4, RS, filter_app. reflexivity. }
+    destruct (IH (recs_pre ++ [r1]) rs (count_line h (32 :: it_payload x)) Hok' Hrs) as (recs'' & h'' & Hf & Hall).
+    rewrite app_length in Hf. cbn [length] in Hf. rewrite <- app_assoc in Hf. cbn [app] in Hf.
+    replace (length recs_pre + 1)%nat with (S (length recs_pre)) in Hf by lia.
+    exists (r1 :: recs''), h''. split.
+    + rewrite Hf. rewrite <- app_assoc. cbn [app length]. f_equal. f_equal. f_equal. lia.
+    + constructor; assumption.
+Qed.
+
+Section MsfLayout.
+Variable rows : list lrow.
+Variable k : nat.
+Variable seps : nat -> list (list Z).
+Hypothesis names_ok : Forall (fun row => gname_ok (fst row)) rows.
+Hypothesis pieces : Forall (fun row => length (snd row) = k) rows.
+Hypothesis seps_good : forall j, seps_ok (seps j).
+
+Lemma after_is_gpre_n j : forall recs rws, Forall2 (after_blocks j) recs rws -> Forall2 gpre_n recs (map (item_of j) rws).
+Proof.
+  intros recs rws H. induction H as [|r row recs rws (W & N & R & RS) H IH]; cbn [map]; constructor; [|exact IH].
+  split; [split; [exact W|split; [exact R|exact RS]]|exact N].
+Qed.
+
+Lemma msf_block_g j recs h : (j < k)%nat -> Forall2 (after_blocks j) recs rows ->
+  exists recs' h', fold_left msf_step (block_lines rows seps j) (Some (recs, 0%nat, h)) = Some (recs', 0%nat, h') /\
+                   Forall2 (after_blocks (S j)) recs' rows.
+Proof.
+  intros Hj Hs.
+  destruct (msf_rows_g (map (item_of j) rows) [] recs h) as (recs' & h' & Hf & Hall).
+  - apply Forall_forall. intros x Hin. apply in_map_iff in Hin. destruct Hin as (row & <- & Hin).
+    rewrite Forall_forall in names_ok. apply (names_ok row Hin).
+  - apply after_is_gpre_n. exact Hs.
+  - exists recs', h'. split; [|eapply gpost_is_after; eassumption].
+    unfold block_lines. rewrite fold_left_app. cbn [app length] in Hf. rewrite Hf.
+    destruct (seps_good j) as [S1 S2]. apply msf_seps; [exact S1|left; exact S2].
+Qed.
+
+Lemma msf_blocks_g : forall cnt j recs h, (j + cnt <= k)%nat -> Forall2 (after_blocks j) recs rows ->
+  exists recs' h', fold_left msf_step (flat_map (block_lines rows seps) (seq j cnt)) (Some (recs, 0%nat, h)) = Some (recs', 0%nat, h') /\
+                   Forall2 (after_blocks (j + cnt)) recs' rows.
+Proof.
+  induction cnt as [|cnt IH]; intros j recs h Hk Hs.
+  - exists recs, h. split; [reflexivity|]. rewrite Nat.add_0_r. exact Hs.
+  - cbn [seq flat_map]. rewrite fold_left_app.
+    destruct (msf_block_g j recs h ltac:(lia) Hs) as (r1 & h1 & F1 & A1). rewrite F1.
+    destruct (IH (S j) r1 h1 ltac:(lia) A1) as (r2 & h2 & F2 & A2).
+    exists r2, h2. split; [exact F2|]. replace (j + S cnt)%nat with (S j + cnt)%nat by lia. exact A2.
+Qed.
+
+(* the body of an MSF file in any layout, read into the records the header declared *)
+Theorem msf_body_layout lead h0 : Forall sep_line lead ->
+  exists recs h, fold_left msf_step (lead ++ body_lines rows k seps) (Some (map (fun row => empty_rec (fst row)) rows, 0%nat, h0)) = Some (recs, 0%nat, h) /\
+    Forall2 (fun r row => rr_name r = fst row /\ row_of r = norm (List.concat (snd row)) /\
+                          rr_res r = filter isalpha (List.concat (snd row))) recs rows.
+Proof.
+  intros Hlead.
+  assert (H0 : Forall2 (after_blocks 0) (map (fun row => empty_rec (fst row)) rows) rows).
+  { clear. induction rows as [|row rws IH]; cbn [map]; constructor; [|exact IH].
+    split; [reflexivity|split; [reflexivity|split; reflexivity]]. }
+  destruct (msf_blocks_g k 0%nat _ h0 ltac:(lia) H0) as (recs & h & Hf & Hs). cbn [Nat.add] in Hs.
+  exists recs, h. split.
+  - rewrite fold_left_app. rewrite (msf_seps lead _ 0%nat h0 Hlead (or_intror eq_refl)). unfold body_lines. exact Hf.
+  - clear Hf H0. revert Hs. generalize pieces. clear. intros Hp Hs.
+    induction Hs as [|r row recs rws (W & N & R & RS) H IH]; [constructor|].
+    inversion Hp as [|? ? Hl Hp']; subst. constructor; [|apply IH; exact Hp'].
+    rewrite firstn_all2 in R, RS by lia. split; [exact N|split; [exact R|]]. rewrite RS. apply filter_norm.
+Qed.
+End MsfLayout.
